@@ -116,21 +116,36 @@ for (_size, _wshape) in CASES:
 
 RADII = [('1', 1), ('3/2', 1.5), ('2', 2), ('5/2', 2.5), ('1/2', 0.5)]
 
-for (_size, _rname, _rel) in [((3, 3, 0), '3/2', True), ((4, 2, 0), '2', True), ((2, 2, 2), '3/2', True), ((3, 2, 0), '3/2', False), ((1, 3, 0), '5/2', True), ((3, 3, 0), '1/2', True)]:
+for (_size, _rname, _rel) in [((3, 3, 0), '3/2', True), ((4, 2, 0), '2', True), ((2, 2, 2), '3/2', True), ((3, 2, 0), '3/2', False), ((1, 3, 0), '5/2', True), ((3, 3, 0), '1/2', True), ((2, 4, 0), '3/2', 'aniso')]:
     @harness(P, f'FilterConv.radius_kernel[{_size[0]}x{_size[1]}x{_size[2]},r={_rname},relative={_rel}]',
              targets=[f'{F}:FilterConv.set_filter_radius', f'{F}:FilterConv._prepare', f'{F}:FilterConv._response'], timeout=60000,
-             tier=('thorough' if (_size == (2, 2, 2) or not _rel) else 'quick'))
+             tier=('thorough' if (_size == (2, 2, 2) or _rel is False) else 'quick'))
     def h_radius(ctx, it, size=_size, rname=_rname, rel=_rel):
         """the cone kernel max(0, r - d) is non-negative, sums to one, is mirror symmetric about every axis; hence (all-symmetric padding) constants
         are preserved, every output lies within [min x, max x], and the total volume is preserved"""
         from fractions import Fraction
         ctx.safety_on = False
-        units = [1, 1, 1] if rel else [Fraction(1, 2), Fraction(3, 4), 1]
+        # absolute units: elements of size 1/2 x 3/4 (x 1), and an anisotropic case with elements LONGER in x than in y (1 x 2/5)
+        units = [1, 1, 1] if rel is True else ([Fraction(1), Fraction(2, 5), 1] if rel == 'aniso' else [Fraction(1, 2), Fraction(3, 4), 1])
         dom = it.call(it.get_function(DOMAIN), list(size) + units)
         r = Fraction(rname)
-        mod = mk_filter(it, dom, radius=r, relative_units=rel)
+        mod = mk_filter(it, dom, radius=r, relative_units=(rel is True))
         W = it.getattr(mod, 'weights')
         ws = list(W.data.reshape(-1))
+        # the kernel IS the cone of the requested radius: the window reaches every element centre closer than r (or the whole domain along an axis),
+        # and each weight is max(0, r - distance) up to the common normalisation
+        du = [1, 1, 1] if rel is True else units
+        half = [(sh - 1) // 2 for sh in W.shape]
+        nax = [size[0], size[1], size[2]]
+        ctx.prove('kernel.window_covers_radius', all((half[a] + 1) * du[a] >= r or half[a] >= nax[a] for a in range(3)))
+        cone = {}
+        for idx in np.ndindex(*W.shape):
+            d2 = sum(((idx[a] - half[a]) * du[a]) ** 2 for a in range(3))
+            cone[idx] = V.maxv(0, V.sub(r, V.sqrt(d2)))
+        csum = 0
+        for v_ in cone.values():
+            csum = V.add(csum, v_)
+        ctx.prove('kernel.is_normalised_cone', z3.And(*[V.z(V.cmp('==', V.mul(W.data[idx], csum), cone[idx])) for idx in np.ndindex(*W.shape)]))
         ctx.prove('kernel.odd_shape', all(s % 2 == 1 for s in W.shape) and W.ndim == 3)
         ctx.prove('kernel.nonnegative', z3.And(*[V.zreal(w) >= 0 for w in ws]))
         tot = 0
@@ -141,6 +156,8 @@ for (_size, _rname, _rel) in [((3, 3, 0), '3/2', True), ((4, 2, 0), '2', True), 
         ctx.prove('kernel.mirror_symmetric', z3.And(*[V.zbool(V.cmp('==', Wd[a, b, c], Wd[W.shape[0] - 1 - a, b, c])) for a, b, c in np.ndindex(*W.shape)]
                                                     + [V.zbool(V.cmp('==', Wd[a, b, c], Wd[a, W.shape[1] - 1 - b, c])) for a, b, c in np.ndindex(*W.shape)]
                                                     + [V.zbool(V.cmp('==', Wd[a, b, c], Wd[a, b, W.shape[2] - 1 - c])) for a, b, c in np.ndindex(*W.shape)]))
+        if rel == 'aniso':
+            return            # the modular step below does not depend on the units; it is exercised by the other instances
         # modular step: the remaining clauses hold for EVERY kernel with the three facts just proved (non-negative, unit sum, mirror symmetric);
         # replace the computed weights by an arbitrary kernel of the same shape constrained by exactly these facts
         Ws = np.empty(W.shape, dtype=object)
@@ -182,16 +199,22 @@ for (_size, _rname, _rel) in [((3, 3, 0), '3/2', True), ((4, 2, 0), '2', True), 
         ctx.prove_isolated('volume_preserved_symmetric_padding', V.zreal(sx) == V.zreal(sy), facts)
 
 
-for (_size, _rname) in [((3, 3, 0), '3/2'), ((4, 2, 0), '2'), ((1, 4, 0), '5/2'), ((2, 2, 2), '3/2'), ((3, 2, 0), '1'), ((5, 1, 0), '3')]:
-    @harness(P, f'DensityFilter.cone_average[{_size[0]}x{_size[1]}x{_size[2]},r={_rname}]',
+for (_size, _rname, _earlier) in [((3, 3, 0), '3/2', None), ((4, 2, 0), '2', None), ((1, 4, 0), '5/2', None), ((2, 2, 2), '3/2', None), ((3, 2, 0), '1', None), ((5, 1, 0), '3', None),
+                                  ((3, 2, 0), '3/2', '6/5'), ((4, 1, 0), '5/2', '2')]:
+    @harness(P, f'DensityFilter.cone_average[{_size[0]}x{_size[1]}x{_size[2]},r={_rname}' + (f',after_a_filter_with_r={_earlier}' if _earlier else '') + ']',
              targets=[f'{F}:DensityFilter._calculate_h', f'{F}:Filter._prepare', f'{F}:Filter._response'], timeout=60000)
-    def h_density(ctx, it, size=_size, rname=_rname):
+    def h_density(ctx, it, size=_size, rname=_rname, earlier=_earlier):
         """y_i = sum_j max(0, r - d_ij) x_j / sum_j max(0, r - d_ij) over ALL elements j (distance in element units); constants preserved and
         outputs within [min x, max x]; H is symmetric"""
         from fractions import Fraction
         ctx.safety_on = False
         dom = it.call(it.get_function(DOMAIN), list(size))
         r = Fraction(rname)
+        if earlier:
+            # another filter of a DIFFERENT radius (same integer part) was built on a mesh of the same size before: nothing of it may be reused
+            dom0 = it.call(it.get_function(DOMAIN), list(size))
+            mod0 = it.new_object(it.get_function(f'{F}:DensityFilter'), sig_in=[], sig_out=[])
+            it.call(it.getattr(mod0, '_prepare'), [dom0], {'radius': Fraction(earlier)})
         mod = it.new_object(it.get_function(f'{F}:DensityFilter'), sig_in=[], sig_out=[])
         it.call(it.getattr(mod, '_prepare'), [dom], {'radius': r})
         nx, ny, nz = size[0], size[1], max(size[2], 1)
